@@ -272,6 +272,15 @@ def run_case(case, seed):
                 prev = e
                 if ismax or d == 1:
                     r.close(key + ':exact-at-max-rank', vec(x), xs, 1e-8, 'repeats %d' % reps)
+    # warm start: a maximal-rank guess that already agrees with the solution to nine digits is refined to rounding level like any other
+    if not binding and case['op'] == 'dense' and c in (False, True):
+        from scikit_tt.tensor_train import TT as _TTw
+        noise_ = rng.standard_normal(xs.shape) + (1j * rng.standard_normal(xs.shape) if c else 0)
+        gw = _TTw((xs * (1 + 1e-9 * noise_)).reshape(list(dims) + [1] * d))
+        with r.op(key + ':warm-start:call'):
+            yw = solve(gw, 1)
+            if meta_problem(yw) is None and list(yw.row_dims) == list(dims):
+                r.close(key + ':warm-start:refined', vec(yw), xs, 1e-11, 'guess = solution * (1 + 1e-9 noise), ranks %s' % gw.ranks)
     # two-site blocks span everything when d == 2: exact regardless of the guess ranks
     # fixed point: exact (representable) solution as guess
     xg = tt_from(rand_cores(rng, dims, [1] * d, rg, c is True or c == 'guess'))
